@@ -26,6 +26,7 @@
     html_roundtrip_doc_strip_partial xhtml_roundtrip_doc_strip_partial xhtml_roundtrip_doc_readxml_strip_partial
     preserve_table_is_pre_textarea html_roundtrip_tree_mixed_partial xhtml_roundtrip_tree_mixed_tokens_partial
     html_roundtrip_doc_mixed_partial strip_is_norm_forest_mixed_partial html_roundtrip_doc_mixed_strip_partial
+    xhtml_roundtrip_tree_mixed_tokens_strip_partial
 -/
 import Genshi.Lemmas.ReaderXhtml
 import Genshi.Lemmas.ReaderTree
@@ -1182,6 +1183,20 @@ example : okList exMixedWs = true ∧ forestMixedOk exMixedWs = true ∧ wsDom .
 example : htmlDocView none (forestPiecesP (normForest .html exMixedWs)) =
     [.start ['d', 'i', 'v'] [], .text ['\n', 'a'], .start ['p', 'r', 'e'] [], .text [' ', '\n', '\n'],
      .start ['b', 'r'] [], .end_ ['p', 'r', 'e'], .end_ ['d', 'i', 'v']] := by decide
+
+/-- xhtml, forests that mix namespaces, `strip_whitespace=True`, tokenizer level: the tokens of the
+    normalised forest, `xmlns` declarations where the namespace changes -/
+theorem xhtml_roundtrip_tree_mixed_tokens_strip_partial (cache : Bool) (ns : List Node)
+    (hok : okList ns = true) (hns : forestMixedOk ns = true) (hd : wsDom .xhtml ns = true)
+    (hh : xhtmlForestOk (normForest .xhtml ns) = true) (hv : forestNsValsOk (normForest .xhtml ns) = true) :
+    (render .xhtml { strip := true, cache := cache, doctype := none, dropXmlDecl := true } (flattenList ns)).bind
+        (tokens true) = some (assemble (forestPiecesXM [] (normForest .xhtml ns))) := by
+  rw [strip_is_norm_forest_mixed_partial .xhtml cache true none ns hok hns hd]
+  exact xhtml_roundtrip_tree_mixed_tokens_partial cache _ (okList_normForest .xhtml ns hok)
+    (mixedOk_normForest .xhtml ns hns) hh hv
+
+example : wsDom .xhtml exMixedWs = true ∧ xhtmlForestOk (normForest .xhtml exMixedWs) = true ∧
+    forestNsValsOk (normForest .xhtml exMixedWs) = true := by decide
 
 def exProlog : List FEv :=
   [.xmlDecl ['1', '.', '0'] none (-1), .doctype ['h', 't', 'm', 'l'] none (some ['a', '"', 'b']),
